@@ -261,6 +261,37 @@ def case_text(rundir, header):
     return out
 
 
+
+def post_fmtcfg(rundir):
+    """C20: recompute the formatting observations of this run against /repo built without features and with the
+    crate's default features (the harness links `full`), and compare with the harness's observations"""
+    d = os.path.join(ROOT, "fmtcfg")
+    res = {"configs": {}, "failures": []}
+    ops = os.path.join(rundir, "ops.txt")
+    impl = open(os.path.join(rundir, "impl.txt")).read().splitlines()
+    opl = open(ops).read().splitlines()
+    for name, args in (("no-default-features", []), ("crate-default", ["--features", "crate-default"])):
+        tdir = os.path.join(d, "target", name)
+        rc, out = sh(["cargo", "build", "--offline", "--quiet", "--target-dir", tdir] + args, cwd=d, timeout=1200)
+        if rc != 0:
+            res["failures"].append(f"case 0: fmtcfg does not build in configuration {name}: {out[-300:]}")
+            continue
+        p = subprocess.run([os.path.join(tdir, "debug", "fmtcfg"), ops], stdout=subprocess.PIPE, stderr=subprocess.PIPE,
+                           timeout=1200, env={**os.environ, "NO_COLOR": "1"})
+        got = p.stdout.decode("utf-8", "replace").splitlines()
+        nd, case = 0, "0"
+        if p.returncode != 0 or len(got) != len(impl):
+            res["failures"].append(f"case 0: fmtcfg ({name}) exited {p.returncode} with {len(got)} lines for {len(impl)} operations")
+        for op, a, b in zip(opl, impl, got):
+            if op.startswith("# case "):
+                case = op.split()[2]
+            elif a != b:
+                nd += 1
+                if nd <= 3:
+                    res["failures"].append(f"case {case}: {op}: built with {name} the crate prints `{b[:200]}`, built with `full` (colours unsupported) it prints `{a[:200]}`")
+        res["configs"][name] = {"lines_compared": min(len(got), len(impl)), "differences": nd}
+    return res
+
 # ----------------------------------------------------------------------------- known findings
 def load_known():
     p = os.path.join(ROOT, "known_findings.json")
@@ -309,6 +340,12 @@ def run_check(pid, tier, seed):
 
     oracle_failures, diffs, crashed = [], [], None
     meta = {}
+    post = None
+    if spec.get("post") == "fmtcfg" and corr_runs and not corr_runs[0][1]["crashed"]:
+        with Lock():
+            post = post_fmtcfg(corr_runs[0][1]["rundir"])
+        for f in post["failures"]:
+            oracle_failures.append(("debug", corr_runs[0][1], f))
     for prof, cr in corr_runs:
         if cr["crashed"]:
             crashed = crashed or (prof, cr)
@@ -421,6 +458,8 @@ def run_check(pid, tier, seed):
         "known_findings_matched": [k["id"] for k in known_hits],
         "notes": notes,
     }
+    if post is not None:
+        cov["feature_configurations"] = post["configs"]
     if thorough:
         cov["leanchecker"] = pr.get("leanchecker", "not run")
     ev = {"property_id": pid, "tier": tier, "seed": seed, "level": "proof", "coverage": cov,
@@ -472,6 +511,12 @@ def setup():
         ok, log = build_harness(True)
         if not ok:
             print(log); return 1
+        # C20's other feature configurations of /repo
+        for name, args in (("no-default-features", []), ("crate-default", ["--features", "crate-default"])):
+            rc, out = sh(["cargo", "build", "--offline", "--quiet", "--target-dir", os.path.join(ROOT, "fmtcfg", "target", name)] + args,
+                         cwd=os.path.join(ROOT, "fmtcfg"), timeout=1200)
+            if rc != 0:
+                print(out[-1500:]); return 1
     print("setup ok")
     return 0
 
